@@ -1,3 +1,4 @@
+import Driver.Borrow
 import Driver.Tee
 import Driver.CachedProperty
 import Driver.Lru
@@ -21,6 +22,7 @@ def dispatch (j : Json) : Except String Json := do
   | "lru" => Drv.Lru.run j
   | "cachedprop" => Drv.CachedProperty.run j
   | "tee" => Drv.Tee.run j
+  | "borrow" => Drv.Borrow.run j
   | _ => throw s!"unknown machine {m}"
 
 partial def loop (h : IO.FS.Stream) (out : IO.FS.Stream) : IO Unit := do
